@@ -4,7 +4,7 @@ nothing is taken from nfcpy.
 
 One image = (geometry, length-field form, length L, end offset d, reserved-range variant):
 
-  * the NDEF message TLV is the only non-NULL TLV after 0..2 control TLVs; its length field is stored in the 1-byte form
+  * the NDEF message TLV follows 0..2 control TLVs and NULL TLVs / one proprietary TLV that bridge the gap; its length field is stored in the 1-byte form
     (L = 0..254) or in the 3-byte form FFh hi lo (L = 0..300, i.e. *including* the non-canonical values below 255 that
     a reader has to accept);
   * d = -3..+4 counts usable (non reserved) bytes: for d <= 0 the value ends |d| usable bytes in front of the end of the
@@ -66,7 +66,7 @@ def build(rng, img, base, data_end, d, form, ln, variant, fixed_reserved=(), min
     first_free = base + 5 * nctl
     if "before" in variant:
         s = rng.randrange(1, 7)
-        a = _expressible(first_free + rng.randrange(1, 6), first_free, data_end, min_exp, +1)
+        a = _expressible(first_free + rng.randrange(8, 14), first_free, data_end, min_exp, +1)
         if a is None:
             return None
         want.append(("before", a, s))
@@ -149,6 +149,21 @@ def build(rng, img, base, data_end, d, form, ln, variant, fixed_reserved=(), min
         pos += 5
         for x in range(a, min(a + n, data_end, phys)):
             img[x] = 0xFE if cls == "before" else rng.randrange(256)
+    # the bytes between the control TLVs and the NDEF TLV: NULL TLVs, or (long gaps, mostly) some NULL TLVs and one
+    # proprietary TLV whose value covers the rest and jumps over the reserved bytes on its way
+    gap = [x for x in usable[:lo] if x < o and x < phys]
+    filler = "null"
+    if len(gap) > 40 and rng.random() < 0.85:
+        g = gap[rng.randrange(0, 4):]
+        n = len(g) - 2 if len(g) - 2 <= 254 else len(g) - 4
+        h = 2 if n == len(g) - 2 else 4
+        if g[h - 1] - g[0] == h - 1:
+            fh = bytes([0xFD, n]) if h == 2 else bytes([0xFD, 0xFF, n >> 8, n & 0xFF])
+            for i, b in enumerate(fh):
+                img[g[i]] = b
+            for x in g[h:]:
+                img[x] = rng.randrange(256)
+            filler = "proprietary-tlv-%d" % (h - 1)
     hdr = bytes([3, ln]) if form == 1 else bytes([3, 0xFF, ln >> 8, ln & 0xFF])
     for i, b in enumerate(hdr):
         if o + i < phys:
@@ -165,7 +180,7 @@ def build(rng, img, base, data_end, d, form, ln, variant, fixed_reserved=(), min
             img[x] = rng.randrange(256)
     return {"form": form, "len": ln, "d": d, "variant": variant, "realised": sorted(realised), "offset": o,
             "ranges": [[c, k, a, n] for c, k, a, n in ranges], "data_end": data_end, "phys": phys,
-            "fits": d <= 0, "value": bytes(value), "behind": max(0, phys - data_end)}
+            "filler": filler, "fits": d <= 0, "value": bytes(value), "behind": max(0, phys - data_end)}
 
 
 def enumerate_specs(rng, form, tier, ngeo, extra=6):
